@@ -195,7 +195,8 @@ func (v objectValidator) validateTypeRules(value jbytes.Bytes) (string, bool) {
 		})
 
 		if !inside {
-			if bytes.Equal(node.Value(), value) {
+			// Both are JSON string tokens: compare what they denote ("a\u0062c" is "abc").
+			if bytes.Equal(node.Value().Unquote(), value.Unquote()) {
 				flag = true
 			}
 		}
